@@ -608,6 +608,26 @@ func c12Extra(w *World, r *Report) {
 		r.Check(ok, "R5", "CachingPlugin.OnResponse/bound-configured-before-store", pos,
 			"every responseCache.Set is dominated by WithMaxCacheSize(calculateSize, remedyConfig.MaxCacheSizeMegabytes): the store is bounded by the configured size")
 	}
+	// WithMaxCacheSize switches the bound on with exactly what it was given
+	if wm := w.Fn(pkgUtils, "MemoryCache.WithMaxCacheSize"); wm == nil {
+		r.Undec("R5", "MemoryCache.WithMaxCacheSize", token.NoPos, "function not found")
+	} else {
+		want := map[string]func(ssa.Value) bool{
+			"calculateCacheSize": func(v ssa.Value) bool { b, isC := constBool(v); return isC && b },
+			"calculateSizeFunc":  func(v ssa.Value) bool { return v == ssa.Value(wm.Params[1]) },
+			"maxCacheSize":       func(v ssa.Value) bool { return v == ssa.Value(wm.Params[2]) },
+		}
+		ok := len(wm.Params) == 3
+		var why []string
+		for f, pred := range want {
+			st := fieldStores(wm, f)
+			if len(st) != 1 || !pred(st[0].Val) || len(CondsOf(st[0].Block())) != 0 {
+				ok = false
+				why = append(why, f)
+			}
+		}
+		r.Check(ok, "R5", "WithMaxCacheSize/switches-the-bound-on", wm.Pos(), "WithMaxCacheSize stores calculateCacheSize=true, the given size function and the given maximum, unconditionally (wrong: %v)", why)
+	}
 	ex := w.Fn(pkgRemedies, "extractHashedPathParams")
 	if ex == nil {
 		r.Undec("R3", "extractHashedPathParams", token.NoPos, "function not found")
